@@ -213,6 +213,14 @@ def monitor_c05(c, ikv, mkv):
             return 'deserialization left %s bytes' % ikv.get(key + 'rest')
         if ikv.get(key + 'truncok') != '0':
             return '%s truncated inputs deserialized without an exception' % ikv.get(key + 'truncok')
+    if c.get('ag') and c['rt'] is not None and 'D' not in GT.py_tag(c['ty']):
+        got = ikv.get('rt2', '')
+        if got.startswith('EXC'):
+            return 'deserialization into a used %s threw: %s' % (c['rt']['cxx'], bytes.fromhex(got[4:]).decode('latin1'))
+        if got != GT.py_encode(c['ty'], GT.canon_value_for(c['rt'], c['val2'])).hex():
+            return ('deserializing a second value into the %s that holds the first one did not yield the second value: %s' % (c['rt']['cxx'], got[:120]))
+        if c['ag'] & 2 and ikv.get('keep') != GT.py_encode(c['ty'], GT.canon_value_for(c['rt'], c['val'])).hex():
+            return ('a copy of the first deserialized %s changed when a second value was deserialized into the original: %s' % (c['rt']['cxx'], str(ikv.get('keep'))[:120]))
     fx = c.get('fx')
     if fx and ikv.get('fx') not in (None, 'NA') and 'D' not in GT.py_tag(c['ty']):
         got = ikv['fx']
